@@ -247,10 +247,18 @@ class ShelfCreator:
         self.shelf_transform.create_file(inverse_lines, s_trans_id)
 
     @staticmethod
-    def _content_from_tree(tt, tree, file_id):
+    def _content_from_tree(tt, tree, file_id, replaced_tree):
         trans_id = tt.trans_id_file_id(file_id)
         tt.delete_contents(trans_id)
-        transform.create_from_tree(tt, trans_id, tree, tree.id2path(file_id))
+        path = tree.id2path(file_id)
+        transform.create_from_tree(tt, trans_id, tree, path)
+        if (
+            tree.kind(path) == "file"
+            and replaced_tree.kind(replaced_tree.id2path(file_id)) != "file"
+        ):
+            # A file that replaces something that is not a file has no mode to
+            # inherit: carry its executable bit explicitly.
+            tt.set_executability(tree.is_executable(path), trans_id)
 
     def shelve_content_change(self, file_id):
         """Shelve a kind change or binary file content change.
@@ -258,8 +266,12 @@ class ShelfCreator:
         :param file_id: The file id of the file to shelve the content change
             of.
         """
-        self._content_from_tree(self.work_transform, self.target_tree, file_id)
-        self._content_from_tree(self.shelf_transform, self.work_tree, file_id)
+        self._content_from_tree(
+            self.work_transform, self.target_tree, file_id, self.work_tree
+        )
+        self._content_from_tree(
+            self.shelf_transform, self.work_tree, file_id, self.target_tree
+        )
 
     def shelve_creation(self, file_id):
         """Shelve creation of a file.
@@ -288,7 +300,11 @@ class ShelfCreator:
         """
         kind, name, parent, versioned = self.deletion[file_id]
         existing_path = self.target_tree.id2path(file_id)
-        if not self.work_tree.has_filename(existing_path):
+        if not self.work_tree.has_filename(
+            existing_path
+        ) or self.work_tree.is_versioned(existing_path):
+            # Only an unversioned file left at the old path is the kept copy of
+            # the deleted file; something versioned there is another file.
             existing_path = None
         version = not versioned[1]
         self._shelve_creation(
@@ -336,6 +352,11 @@ class ShelfCreator:
                     )
         if version:
             to_transform.version_file(s_trans_id, file_id=file_id)
+        if parent is not None and existing_path is None and kind == "file":
+            # create_from_tree does not carry the executable bit
+            to_transform.set_executability(
+                tree.is_executable(tree.id2path(file_id)), s_trans_id
+            )
 
     def _inverse_lines(self, new_lines, file_id):
         """Produce a version with only those changes removed from new_lines."""
